@@ -388,6 +388,49 @@ theorem partition_sound (s s' : Store) (arm : String) (gid : String → String) 
   · exact fun c S o hc hcp h1 hS h2 ho hsimple => closure_service_owner g0 d c S o hc hcp h1 hS h2 ho hsimple
   · exact fun n hn hst => (stitch_everywhere genCfg g0 d n hn hst).2
 
+/-! ## partitions of an earlier call stay what they were -/
+
+/-- **a later partitioning — of another model of the same store, or of the same model again — leaves the partitions of an
+earlier one what they were**: if none of the graph ids generated by the second call is a graph id generated by the first
+(`uuid4` freshness when `delegation_guids` is left out; distinct ids handed in by the caller) or the first model's own id, then after the second call the
+graph stored under the id the FIRST call generated for `d` is still `genAdm cfg gA d`, for every delegation id `d` of the
+first model — whatever delegation names the two models share — and the first model itself is unchanged. (`armB = armA` is the same model partitioned twice.) -/
+theorem earlier_partitions_persist (cfg : Cfg) (s s1 s2 : Store) (armA armB : String) (gidA gidB : String → String)
+    (gA gB : G) (rA rB : List (String × String))
+    (hsA : s.get armA = some gA) (hfreshA : ∀ d ∈ delIds gA, gidA d ≠ armA) (hinjA : ((delIds gA).map gidA).Nodup)
+    (hndA : gA.ids.Nodup) (hendsA : ∀ e ∈ gA.edges, e.a ∈ gA.ids ∧ e.b ∈ gA.ids)
+    (hrunA : generateAdmsS cfg s armA gidA = some (rA, s1))
+    (hsB : s1.get armB = some gB) (hfreshB : ∀ d ∈ delIds gB, gidB d ≠ armB)
+    (hnew : ∀ d ∈ delIds gB, ∀ d' ∈ delIds gA, gidB d ≠ gidA d') (hnewArm : ∀ d ∈ delIds gB, gidB d ≠ armA)
+    (hrunB : generateAdmsS cfg s1 armB gidB = some (rB, s2)) :
+    (∀ d ∈ delIds gA, s2.get (gidA d) = some (genAdm cfg gA d)) ∧ s2.get armA = s1.get armA := by
+  have h1 := (store_run_is_genAdm cfg s s1 armA gidA gA rA hsA hfreshA hinjA hndA hendsA hrunA).2
+  have h2 := (arm_untouched cfg s1 s2 armB gidB gB rB hsB hfreshB hrunB).2
+  refine ⟨fun d hd => ?_, ?_⟩
+  · rw [h2 (gidA d) (fun d' hd' => hnew d' hd' d hd)]
+    exact h1 d hd
+  · exact h2 armA hnewArm
+
+/-- a second model sharing the delegation name `d2` with `cexG` -/
+def cexH : G := { nodes := [⟨"x", "NetworkNode", [], .absent, .dels [("d2", "e")]⟩], edges := [] }
+
+/-- non-vacuity of `earlier_partitions_persist`: two models sharing `d2`, partitioned one after the other under distinct ids -/
+example : ∃ r1 s1 r2 s2, generateAdmsS genCfg [("armA", cexG), ("armB", cexH)] "armA" (fun d => "adm-" ++ d) = some (r1, s1) ∧
+    Store.get s1 "armB" = some cexH ∧ generateAdmsS genCfg s1 "armB" (fun d => "b-" ++ d) = some (r2, s2) ∧
+    (∀ d ∈ delIds cexH, ∀ d' ∈ delIds cexG, "b-" ++ d ≠ "adm-" ++ d') ∧
+    (∀ d ∈ delIds cexH, "b-" ++ d ≠ "armA" ∧ "b-" ++ d ≠ "armB") ∧ delIds cexH = ["d2"] := by
+  refine ⟨_, _, _, _, rfl, ?_, rfl, ?_, ?_, ?_⟩ <;> decide
+
+/-- the hypothesis `hnew` is needed: when the second call generates, for a delegation name both models use, the graph id the
+first call generated (a remembered name ↦ id table), the first model's partition is replaced by the second model's -/
+theorem earlier_partitions_need_fresh :
+    ∃ r1 s1 r2 s2, generateAdmsS genCfg [("armA", cexG), ("armB", cexH)] "armA" (fun d => "adm-" ++ d) = some (r1, s1) ∧
+      generateAdmsS genCfg s1 "armB" (fun d => "adm-" ++ d) = some (r2, s2) ∧
+      Store.get s1 "adm-d2" = some (genAdm genCfg cexG "d2") ∧
+      Store.get s2 "adm-d2" = some (genAdm genCfg cexH "d2") ∧
+      Store.get s2 "adm-d2" ≠ some (genAdm genCfg cexG "d2") := by
+  refine ⟨_, _, _, _, rfl, rfl, ?_, ?_, ?_⟩ <;> decide
+
 /-! ## re-keying -/
 
 /-- **re-keying changes only the key** (whatever the outcome, raised or not): node ids, classes, other
